@@ -85,17 +85,27 @@ func (k vf31Key) signer(scheme int) neofscrypto.Signer {
 // environment: FS chain model
 
 type vf31Chain struct {
-	local    []byte
-	cur      map[cid.ID][][]byte
-	prev     map[cid.ID][][]byte
-	failWith error // injected failure of the placement source
-	calls    map[string]int
+	local []byte
+	cur   map[cid.ID][][]byte
+	prev  map[cid.ID][][]byte
+	// injected read failures of the placement source, per request step:
+	// failSingle    - the current-epoch listing (receiver membership check) fails;
+	// failTwoCur    - the current-epoch part of the two-epoch listing (sender membership
+	//                 check) fails: the previous epoch's nodes are still listed, then the
+	//                 error is returned;
+	// failTwoPrev   - the previous-epoch part of the two-epoch listing fails: the current
+	//                 epoch's nodes are listed first, then the error is returned.
+	// A listing stopped by its callback returns nil (the fault does not manifest).
+	failSingle, failTwoCur, failTwoPrev error
+	manifested                          []string // which listings actually returned an injected error
+	calls                               map[string]int
 }
 
 func (c *vf31Chain) ForEachContainerNodePublicKey(id cid.ID, f func([]byte) bool) error {
 	c.calls["cur"]++
-	if c.failWith != nil {
-		return c.failWith
+	if c.failSingle != nil {
+		c.manifested = append(c.manifested, "single-epoch-listing")
+		return c.failSingle
 	}
 	ks, ok := c.cur[id]
 	if !ok {
@@ -111,17 +121,34 @@ func (c *vf31Chain) ForEachContainerNodePublicKey(id cid.ID, f func([]byte) bool
 
 func (c *vf31Chain) ForEachContainerNodePublicKeyInLastTwoEpochs(id cid.ID, f func([]byte) bool) error {
 	c.calls["two"]++
-	if c.failWith != nil {
-		return c.failWith
-	}
 	ks, ok := c.cur[id]
-	if !ok {
+	if !ok && c.failTwoCur == nil {
 		return apistatus.ErrContainerNotFound
 	}
-	for _, k := range append(append([][]byte{}, ks...), c.prev[id]...) {
-		if !f(k) {
-			return nil
+	if c.failTwoCur == nil {
+		for _, k := range ks {
+			if !f(k) {
+				return nil
+			}
 		}
+	}
+	if c.failTwoPrev == nil {
+		for _, k := range c.prev[id] {
+			if !f(k) {
+				return nil
+			}
+		}
+	}
+	switch {
+	case c.failTwoCur != nil && c.failTwoPrev != nil:
+		c.manifested = append(c.manifested, "two-epoch-listing-both-parts")
+		return fmt.Errorf("both epochs: %w; %w", c.failTwoCur, c.failTwoPrev)
+	case c.failTwoCur != nil:
+		c.manifested = append(c.manifested, "two-epoch-listing-current-part")
+		return c.failTwoCur
+	case c.failTwoPrev != nil:
+		c.manifested = append(c.manifested, "two-epoch-listing-previous-part")
+		return c.failTwoPrev
 	}
 	return nil
 }
@@ -237,12 +264,32 @@ var vf31SenderKinds = [...]string{"node-current", "node-previous-only", "node-of
 var vf31LocalKinds = [...]string{"in-current", "in-previous-only", "outside"}
 var vf31SigKinds = [...]string{"valid", "sig-bitflip", "key-bitflip", "signed-other-id", "claimed-member-key", "scheme-mismatch", "scheme-unsupported", "sig-truncated", "missing-sig", "empty-key", "empty-sign"}
 var vf31ObjKinds = [...]string{"valid", "header-changed", "payload-changed", "id-replaced-and-resigned-request", "object-signature-damaged", "container-switched", "no-header", "no-id"}
-var vf31EnvKinds = [...]string{"ok", "unknown-container", "placement-error", "storage-busy", "storage-error"}
+var vf31EnvKinds = [...]string{"ok", "unknown-container", "placement-error", "storage-busy", "storage-error",
+	// read failures of single steps of the membership checks (the other steps answer)
+	"placement-error-receiver-check-only", "placement-error-sender-check-only",
+	"placement-error-previous-epoch-only", "placement-error-current-epoch-part-of-sender-check"}
+
+// vf31Fault returns an injected read failure of the placement source in one of the shapes
+// a source may produce.
+func vf31Fault(rng *rand.Rand) (error, string) {
+	switch rng.IntN(5) {
+	case 0:
+		return errors.New("verif: injected placement failure"), "plain"
+	case 1:
+		return fmt.Errorf("select container nodes for previous epoch #9: %w", errors.New("verif: not enough nodes to SELECT from")), "wrapped"
+	case 2:
+		return fmt.Errorf("verif: read network map: %w", context.DeadlineExceeded), "deadline"
+	case 3:
+		return fmt.Errorf("verif: read container: %w", apistatus.ErrContainerNotFound), "wrapped-container-not-found"
+	default:
+		return apistatus.ErrContainerNotFound, "container-not-found"
+	}
+}
 
 func TestVerif_C31(t *testing.T) {
 	r := verifkit.Start(t, "C31", "exploration")
 	defer r.Finish()
-	r.SetRule("case = sender kind (5) x local node membership (3) x request signature kind (11) x scheme (3) x object kind (8) x environment (5: ok, unknown container, placement failure, storage busy/error), two containers with different current/previous node sets; distinct = that tuple; every combination that is not all-valid must end with nothing stored and a non-OK status")
+	r.SetRule("case = sender kind (5) x local node membership (3) x request signature kind (11) x scheme (3) x object kind (8) x environment (9: ok, unknown container, storage busy/error, placement read failure of both membership checks / the receiver check only / the sender check only / the previous-epoch part only / the current-epoch part of the sender check only, in 5 error shapes), two containers with different current/previous node sets; distinct = that tuple; every combination that is not all-valid must end with nothing stored and a non-OK status")
 	r.Assume("the Storage behind Server.Replicate validates what it is given (C24 monitors the real validate-and-store step); here a recording Storage validates with the SDK's verification-field check")
 	nCases := r.Pick(20000, 400000)
 
@@ -299,12 +346,23 @@ func TestVerif_C31(t *testing.T) {
 			sender = local
 		}
 		st := &vf31Storage{stored: map[oid.Address][]byte{}}
+		faultShape := ""
 		switch envKind {
 		case 1:
 			delete(chain.cur, cnrA)
 			delete(chain.prev, cnrA)
 		case 2:
-			chain.failWith = errors.New("verif: injected placement failure")
+			chain.failSingle, faultShape = vf31Fault(rng)
+			chain.failTwoCur, chain.failTwoPrev = chain.failSingle, chain.failSingle
+		case 5:
+			chain.failSingle, faultShape = vf31Fault(rng)
+		case 6:
+			chain.failTwoCur, faultShape = vf31Fault(rng)
+			chain.failTwoPrev = chain.failTwoCur
+		case 7:
+			chain.failTwoPrev, faultShape = vf31Fault(rng)
+		case 8:
+			chain.failTwoCur, faultShape = vf31Fault(rng)
 		case 3:
 			st.failWith = apistatus.ErrBusy
 		case 4:
@@ -402,12 +460,16 @@ func TestVerif_C31(t *testing.T) {
 		sigOK := len(idBytes) > 0 && vf31SigValid(idBytes, sig)
 		senderIn := sig != nil && (vf31Contains(chain.cur[objCnr], sig.Key) || vf31Contains(chain.prev[objCnr], sig.Key)) && chain.cur[objCnr] != nil
 		localIn := vf31Contains(chain.cur[objCnr], local.pub)
-		authorised := sigOK && senderIn && localIn && chain.failWith == nil && mo.Header != nil
+		// The condition of the statement is evaluated on the model's membership (the truth),
+		// whether or not the node could read it: a read failure never makes a non-member a
+		// member.  Where a membership listing failed and the truth satisfies the condition
+		// the statement is silent, so either outcome is accepted there (see below).
+		authorised := sigOK && senderIn && localIn && mo.Header != nil
 		mayStore := authorised && objValid && st.failWith == nil
 
 		srv := New(nil, chain, st, nil, *local.priv, nil, nil, nil, nil, zap.NewNop())
 		desc := map[string]any{"case": ci, "sender": vf31SenderKinds[senderKind], "local": vf31LocalKinds[localKind], "signature": vf31SigKinds[sigKind], "scheme": scheme,
-			"object": vf31ObjKinds[objKind], "environment": vf31EnvKinds[envKind], "request_hex": vf31Hex(req)}
+			"object": vf31ObjKinds[objKind], "environment": vf31EnvKinds[envKind], "placement_fault_shape": faultShape, "request_hex": vf31Hex(req)}
 		var resp *protoobject.ReplicateResponse
 		var rerr error
 		if r.Guard(desc, func() { resp, rerr = srv.Replicate(ctx, req) }) {
@@ -427,6 +489,20 @@ func TestVerif_C31(t *testing.T) {
 		}
 		r.Seen("status_codes", code)
 		storedN := len(st.stored)
+		faulted := len(chain.manifested) > 0
+		for _, m := range chain.manifested {
+			r.Count("placement_fault_manifested|"+m, 1)
+			r.Seen("placement_fault_shapes_manifested", faultShape)
+			if sigOK && mo.Header != nil && !(senderIn && localIn) {
+				// the situation that matters: a correctly signed request of a non-member (or
+				// for a non-member) met a membership listing that failed
+				r.Seen("placement_faults_met_by_signed_unauthorised_requests", vf31EnvKinds[envKind]+"|"+m)
+			}
+		}
+		desc["placement_listings_failed"] = chain.manifested
+		if faultShape != "" && sigOK && mo.Header != nil && !(senderIn && localIn) {
+			r.Seen("placement_fault_environments_offered_to_signed_unauthorised_requests", vf31EnvKinds[envKind])
+		}
 		shape := fmt.Sprintf("sender=%s|local=%s|sig=%s|object=%s|env=%s", vf31SenderKinds[senderKind], vf31LocalKinds[localKind], vf31SigKinds[sigKind], vf31ObjKinds[objKind], vf31EnvKinds[envKind])
 		switch {
 		case !authorised && st.calls > 0:
@@ -437,7 +513,7 @@ func TestVerif_C31(t *testing.T) {
 			case sigOK && senderIn && !localIn:
 				why = "local-node-outside-container"
 			case sigOK && senderIn && localIn:
-				why = "placement-unknown"
+				why = "object-without-header"
 			}
 			r.Violation("storage-reached-unauthorised|"+why+"|"+shape, "Replicate handed the object to the storage although the request is not authorised ("+why+")", desc)
 		case !mayStore && storedN > 0:
@@ -448,6 +524,12 @@ func TestVerif_C31(t *testing.T) {
 			r.Count("accepted_and_stored", 1)
 			r.Seen("accepted_sender_kinds", vf31SenderKinds[senderKind])
 			r.Seen("accepted_schemes", fmt.Sprint(scheme))
+		case mayStore && faulted && storedN == 0 && !statusOK:
+			// sender and receiver are members, but a membership listing failed: refusing is fine
+			r.Count("refused_because_membership_listing_failed", 1)
+		case mayStore && faulted && storedN == 1 && statusOK:
+			// ... and so is storing (members by the model; the statement does not cover read failures)
+			r.Count("stored_for_members_although_membership_listing_failed", 1)
 		case mayStore:
 			// all conditions hold but the code refused: not judged ("only if"), must stay rare
 			r.Count("refused_though_all_conditions_hold", 1)
@@ -474,6 +556,9 @@ func TestVerif_C31(t *testing.T) {
 	}
 	if r.Counter("accepted_and_stored") == 0 || r.SeenCount("accepted_schemes") < 3 || r.SeenCount("accepted_sender_kinds") < 2 {
 		r.Inconclusive("accepted replications not observed for every scheme / sender kind")
+	}
+	if want := 5; r.SeenCount("placement_fault_environments_offered_to_signed_unauthorised_requests") < want {
+		r.Inconclusive(fmt.Sprintf("only %d of %d placement read-failure environments were offered to a correctly signed unauthorised request", r.SeenCount("placement_fault_environments_offered_to_signed_unauthorised_requests"), want))
 	}
 	if r.Counter("refused_though_all_conditions_hold") > 0 {
 		r.Inconclusive(fmt.Sprintf("%d fully valid replications were refused: baseline is broken", r.Counter("refused_though_all_conditions_hold")))
